@@ -63,6 +63,9 @@ def parseStmt (s : IS) : List String → IS × Option Stmt
   | ["count", c] => (s, some (.count (chanIdx s c)))
   | ["closestream", p] => (s, some (.closeStream (strIdx s p)))
   | ["exitproc", k] => (s, some (.exitproc ((indexOf s.procs k).getD 999)))
+  | ["enter"] => (s, some .enter)
+  | ["leave"] => (s, some .leave)
+  | ["goself"] => (s, some .goSelf)
   | _ => (s, none)
 
 def parseRes (t : String) : KRes :=
@@ -111,8 +114,8 @@ def showPending (w : World) (l : List Pending) : String :=
 def stepLine (s : DS) (toks : List String) : DS × String :=
   let op (o : Op) : DS × String := ({ s with w := step s.cfg s.w o }, "ok")
   match toks with
-  | ["cfg", a1, a2, a3, a4, a5, a6, a7, a8, a9, a10, a11, a12, a13] =>
-      ({ s with cfg := ⟨b a1, b a2, b a3, b a4, b a5, b a6, b a7, b a8, b a9, b a10, b a11, b a12, b a13⟩ }, "ok")
+  | ["cfg", a1, a2, a3, a4, a5, a6, a7, a8, a9, a10, a11, a12, a13, a14, a15, a16] =>
+      ({ s with cfg := ⟨b a1, b a2, b a3, b a4, b a5, b a6, b a7, b a8, b a9, b a10, b a11, b a12, b a13, b a14, b a15, b a16⟩ }, "ok")
   | ["reset"] => ({ s with w := {} }, "ok")
   | ["new", _] => ({ s with sc := { cfg := s.cfg }, cur := none }, "ok")
   | ["chan", name, cap] =>
@@ -122,9 +125,10 @@ def stepLine (s : DS) (toks : List String) : DS × String :=
   | ["stream", name] =>
       let sc := s.sc
       ({ s with sc := { sc with streams := sc.streams.push name, sclosed := sc.sclosed.push false } }, "ok")
-  | ["proc", name] =>
+  | ["proc", name, flags] =>
       let sc := s.sc
-      ({ s with sc := { sc with procs := sc.procs.push name } }, "ok")
+      let x := flags.toList.contains 'x'
+      ({ s with sc := { sc with procs := sc.procs.push name, w := step sc.cfg sc.w (.procFlag sc.procs.size x) } }, "ok")
   | "k" :: rest =>
       match Scn.parseK rest with
       | some k => ({ s with sc := { s.sc with kin := s.sc.kin ++ [k] } }, "ok")
